@@ -11,7 +11,7 @@ Requests (one line, blank-separated words; lists are comma-separated naturals, p
   <instr>  = uses;defs;clobbers;jumps;isMove(0|1);label(- or n);sem;livein[;plan;loadscratch;storescratch]   plan = t:f,t:f,...
   <sinstr> = L<f>/<scratch csv> | S<f>/<scratch csv> | I<instr>
 
-Replies: `ok accept` | `ok reject <first failing instruction index | entry | shape>` | `bad-op`.
+Replies: `ok accept` | `ok accept entry-shared` (check holds, entryOkB does not) | `ok reject <first failing instruction index | fixed | shape>` | `bad-op`.
 -/
 open Proto Model.MCode Model.RA
 
@@ -87,9 +87,8 @@ def doCheck (aw cw xw rw : String) (iws : List String) : String :=
         fixed := fixed
         removed := fun i => rmArr.getD i false
         live := fun i => liveArr.getD i [] }
-      if check prog A then "ok accept"
+      if check prog A then (if entryOkB A then "ok accept" else "ok accept entry-shared")
       else if !fixedOkB A then "ok reject fixed"
-      else if !entryOkB A then "ok reject entry"
       else match firstBad prog A 0 prog with
         | some i => s!"ok reject {i}"
         | none => "ok reject ?"
